@@ -119,6 +119,7 @@ def run(c):
                 n += 1
                 cases.append(core.Case(cid, "resp.roundtrip", fields_of(r, which)))
                 meta[cid] = (r, which)
+    core.cold_race_check(c, "C15", [cs for cs in cases if len(cs.line()) < 6000][:12], trials=30 if c.quick else 600)
     for cat in ("1 part", ">= 2 parts", "serialiser assoc", "serialiser inst"):
         c.need(cat)
     good = []  # valid serialisations for the corruption campaign
